@@ -271,6 +271,11 @@ def explore_slice(h, sl, deadline, known_regions=(), max_cex=1, validate_every=7
                             res["validation_diverged"] += 1
                             if not h.real_valued:
                                 res["errors"].append("engine validation: native run raised:\n%s" % nc.error)
+        if c.inconclusive:
+            c.undecided += len(c.inconclusive)
+            for r_ in c.inconclusive:
+                if len(res.setdefault("inconclusive_reasons", [])) < 5:
+                    res["inconclusive_reasons"].append(r_)
         res["queries"] += c.queries
         res["solver_s"] += c.solver_s
         res["undecided"] += c.undecided
